@@ -25,3 +25,10 @@ Proof.
   induction l as [|a l IH]; cbn; intros H; [exact H|].
   inversion H; subst. apply IH. assumption.
 Qed.
+
+Lemma combine_app {A B} (l1 l1' : list A) (l2 l2' : list B) :
+  length l1 = length l2 -> combine (l1 ++ l1') (l2 ++ l2') = combine l1 l2 ++ combine l1' l2'.
+Proof.
+  revert l2. induction l1 as [|a l1 IH]; intros [|b l2] H; cbn in *; try discriminate; [reflexivity|].
+  f_equal. apply IH. now inversion H.
+Qed.
